@@ -21,6 +21,7 @@ thread_local! {
 }
 
 pub fn hex(s: &[u8]) -> String {
+    if s.is_empty() { return "-".into(); }
     let mut r = String::with_capacity(s.len() * 2);
     for b in s { r.push_str(&format!("{:02x}", b)); }
     r
